@@ -1,1 +1,29 @@
-// harnesses for this module (included by the isomer_erbium_verif hook)
+// crates/erbium-core/src/dns/acl.rs (C08: the DNS entry point checks dns-recursion before anything else).
+// DnsAclHandler::handle_query is async; its body is lifted verbatim into a synchronous fn by /verif/lib/lift.py on
+// every run and decided by the mirsym engine from the MIR of this module (Kani: beyond CBMC memory).
+#[cfg(any(kani, isomer_erbium_mir))]
+pub mod lifted {
+    #![allow(dead_code)]
+    use super::super::*;
+    pub struct AclConfView {
+        pub acls: Vec<acl::Acl>,
+    }
+    pub struct AclLock<'a>(pub &'a AclConfView);
+    impl<'a> AclLock<'a> {
+        fn read(&self) -> &'a AclConfView {
+            self.0
+        }
+    }
+    pub struct AclNext;
+    impl AclNext {
+        // the next handler in the chain (router -> cache -> upstream)
+        fn handle_query(&self, _msg: &DnsMessage) -> Result<dnspkt::DNSPkt, Error> {
+            Err(Error::NotAuthoritative)
+        }
+    }
+    pub struct AclShim<'a> {
+        pub config: AclLock<'a>,
+        pub next: AclNext,
+    }
+    include!(concat!(env!("VERIF_GEN_DIR"), "/dnsacl_handle_query.rs"));
+}
